@@ -151,7 +151,11 @@ class PathProver:
                 r, m = self.ex.prove(g0, extra)
             else:
                 syms = [(n, c) for n, (c, _) in CTX.symbols.items()]
-                r, vals = self.ex.prove_forked(g0, 4.0, syms)
+                ra, _ = self.ex.prove_forked(abstract_selects(sg), 6.0, [])      # table reads abstracted: pure bit-level obligation
+                if ra == 'unsat':
+                    r, vals = 'unsat', None
+                else:
+                    r, vals = self.ex.prove_forked(g0, 4.0, syms)
                 m = model_from_values(vals, syms) if r == 'sat' else None
                 if r == 'unknown':
                     m = fb(g0)
@@ -175,6 +179,27 @@ class PathProver:
             return False
         res['unknown'].append(f'{desc}: solver returned unknown after {dt:.1f}s')
         return False
+
+
+def abstract_selects(t):
+    """Replace every array read / function-symbol application inside t by a fresh variable (one per distinct term): a generalisation,
+    so proving the result proves t."""
+    cache = {}
+
+    def go(e_):
+        k_ = e_.get_id()
+        if k_ in cache:
+            return cache[k_]
+        if z3.is_app(e_) and (e_.decl().kind() == z3.Z3_OP_SELECT or (e_.decl().kind() == z3.Z3_OP_UNINTERPRETED and e_.num_args() > 0)):
+            r = z3.FreshConst(e_.sort(), 'rd')
+        elif z3.is_app(e_) and e_.num_args() > 0:
+            ch = [go(c) for c in e_.children()]
+            r = e_.decl()(*ch) if any(not a.eq(b) for a, b in zip(ch, e_.children())) else e_
+        else:
+            r = e_
+        cache[k_] = r
+        return r
+    return go(t)
 
 
 def term_size(t, cap):
